@@ -65,17 +65,31 @@ def stage_exhaustive(rep, props, *, label, consts, flnames, defdid="hash", mk=1,
     if not res.ok:
         raise P.TLCError(f"{label}: TLC failed on the specification itself: {res.errors[:3]} {res.tail[-10:]}")
     rep.add_mc(res, label + ":emit")
-    pairs = [(i, r["pre"], r["op"]) for i, r in enumerate(res.json_lines()) if "op" in r]
+    # one dict object per distinct pre-state (TLC prints the state with every transition; millions of them in the
+    # thorough tier would not fit into memory otherwise)
+    interned = {}
+    pairs = []
+    for i, r in enumerate(res.json_lines()):
+        if "op" in r:
+            k = json.dumps(r["pre"], sort_keys=True)
+            pairs.append((i, interned.setdefault(k, r["pre"]), r["op"]))
+    del interned
     res.cleanup()
+    BATCH = 150_000
     for fn in flnames:
         # the large filter-verdict alphabet is data-flavour independent: executed for the first flavour only
         use = pairs if fn not in light else [p for p in pairs if not _is_filterx(p[2])]
-        recs = P.execute_pairs(use, fn, mk=mk, maxd=maxd, src_xid=11 if 11 in set(consts.get("Xids", ())) else 0)
-        mism, checked, wall = P.validate_records(recs, defdid=defdid, mk=mk)
-        if checked != len([r for r in recs if "build_failed" not in r]):
-            raise P.TLCError(f"{label}: validated {checked} of {len(recs)} records")
-        absorb(rep, recs, mism, props)
-        rep.stages.append({"stage": f"{label}:{fn}", "pairs": len(use), "records": len(recs),
+        nrec = 0
+        for b0 in range(0, len(use), BATCH):     # bounded memory: execute, validate, absorb, forget
+            recs = P.execute_pairs(use[b0:b0 + BATCH], fn, mk=mk, maxd=maxd,
+                                   src_xid=11 if 11 in set(consts.get("Xids", ())) else 0)
+            mism, checked, wall = P.validate_records(recs, defdid=defdid, mk=mk)
+            if checked != len([r for r in recs if "build_failed" not in r]):
+                raise P.TLCError(f"{label}: validated {checked} of {len(recs)} records")
+            absorb(rep, recs, mism, props)
+            nrec += len(recs)
+            del recs, mism
+        rep.stages.append({"stage": f"{label}:{fn}", "pairs": len(use), "records": nrec,
                            "wall_s": round(time.time() - t0, 1)})
     return pairs
 
@@ -180,7 +194,7 @@ def _walk(args):
         ops = graph.get(_state_key(cur))
         if not ops:
             break  # the live object left the specification's state graph (reported by the step before)
-        op = _maybe_stale(b, cur, rng, 0.1) or rng.choice(ops)
+        op = _maybe_stale(b, cur, rng, 0.1) or json.loads(rng.choice(ops))
         if not core.op_applicable(op, fl):
             continue
         rec = trace.run_step(b, op, base_id + k, src, maxd, pre_st=cur, extra={"hist": base_id, "step": k})
@@ -197,11 +211,20 @@ def stage_walks(rep, props, *, label, pairs, flnames, walks, steps, seed, defdid
     """multi-step behaviours of the specification (paths of TLC's state graph) on one live object"""
     import multiprocessing as mp
     global _WALK_GRAPH
+    # state key -> operations as JSON text (plain strings are not tracked by the cyclic GC, so the forked workers
+    # do not copy the graph page by page)
     graph = {}
+    keyof = {}
     for _i, pre, op in pairs:
-        st = core.norm_state(pre)
-        graph.setdefault(_state_key(st), []).append(op)
+        k = keyof.get(id(pre))
+        if k is None:
+            k = keyof[id(pre)] = _state_key(core.norm_state(pre))
+        graph.setdefault(k, []).append(json.dumps(op))
+    del keyof
     _WALK_GRAPH = graph
+    import gc
+    gc.collect()
+    gc.freeze()
     for fi, fn in enumerate(flnames):
         jobs = [(seed * 7907 + fi * 101 + w, fn, steps, mk, maxd, (w + 1) * 1000) for w in range(walks)]
         with mp.get_context("fork").Pool(16) as pool:
@@ -212,6 +235,7 @@ def stage_walks(rep, props, *, label, pairs, flnames, walks, steps, seed, defdid
         rep.stages.append({"stage": f"{label}:{fn}", "walks": walks, "records": len(recs)})
         rep.extra["spec_behaviours_replayed"] = rep.extra.get("spec_behaviours_replayed", 0) + walks
     _WALK_GRAPH = {}
+    gc.unfreeze()
 
 
 def _random_history(args):
